@@ -458,7 +458,70 @@ def _il_oracle(case):
                     out.append(Disc('interlingual:lowest-not-among-common',
                                     f'lowest_common_hypernyms({a.key},{b.key})',
                                     {'nonempty subset of': exp}, sorted(lk)))
+    if out:
+        return out
+    # shortest_path between any two nodes of the mapped graph, placeholders included: the
+    # objects are the ones wn itself hands out on hypernym paths
+    for a in rs:
+        nodes = _il_nodes(view, a)                  # {key string: reference node}
+        objs = {a.key: bykey[a.key]}
+        paths = observe.call(bykey[a.key].hypernym_paths)
+        if _raised(paths):
+            continue
+        for path in paths:
+            for x in path:
+                objs.setdefault(c12._kstr(key_of(x)), x)
+        dist = {k: _il_dist(view, n, a.owner) for k, n in nodes.items() if k in objs}
+        for ka in sorted(dist):
+            for kb in sorted(dist):
+                common = set(dist[ka]) & set(dist[kb])
+                exp = min((dist[ka][c] + dist[kb][c] for c in common), default=None)
+                got = observe.call(objs[ka].shortest_path, objs[kb])
+                if exp is None:
+                    ok = _raised(got)
+                else:
+                    ok = (not _raised(got)) and len(got) == exp and \
+                        (not got or c12._kstr(key_of(got[-1])) == kb)
+                if not ok:
+                    out.append(Disc('interlingual:shortest-path-differs',
+                                    f'shortest_path({ka},{kb}) from {a.key}',
+                                    'wn.Error' if exp is None else f'{exp} step(s) ending at {kb}',
+                                    got if _raised(got)
+                                    else [c12._kstr(key_of(x)) for x in got]))
+                    if len(out) >= _MAX_DISCS:
+                        return out
     return out
+
+
+def _il_nodes(view, start):
+    """{key string: reference node} of a real synset and everything above it."""
+    from . import c12
+    nodes = {start.key: start}
+    todo = [start]
+    while todo:
+        n = todo.pop(0)
+        for k in c12._related(view, n, _HYP, start.owner):
+            ks = c12._kstr(k)
+            if ks not in nodes:
+                nodes[ks] = c12._node_of(view, k)
+                todo.append(nodes[ks])
+    return nodes
+
+
+def _il_dist(view, node, owner):
+    """{key string: least number of hypernym steps} from a node (itself: 0)."""
+    from . import c12
+    me = node.key if not isinstance(node, tuple) else f'*INFERRED*[{node[1]}]'
+    dist = {me: 0}
+    todo = [(node, 0)]
+    while todo:
+        n, d = todo.pop(0)
+        for k in c12._related(view, n, _HYP, owner):
+            ks = c12._kstr(k)
+            if ks not in dist:
+                dist[ks] = d + 1
+                todo.append((c12._node_of(view, k), d + 1))
+    return dist
 
 
 SUBS = [
